@@ -51,6 +51,9 @@ mod heads;
 mod keys;
 mod ranger;
 
+#[cfg(feature = "verif-hooks")]
+pub mod verif;
+
 #[doc(inline)]
 pub use net::ALPN;
 
